@@ -48,6 +48,9 @@ type c11Case struct {
 	Seed     uint64            `json:"seed"`
 	// Prelude: earlier invocations in the same process (SDK style), each with its own plugins and limit
 	Prelude []c11Prelude `json:"prelude,omitempty"`
+	// SdkPlug: the invocations of this world are sdk.InvokeThriftgo calls of a host program that hands in an
+	// in-process (SDK) plugin with parameters of its own; it must be handed exactly those, every time
+	SdkPlug bool `json:"sdk_plugin,omitempty"`
 }
 
 type c11Prelude struct {
@@ -123,6 +126,9 @@ func (c *c11Case) spec() *simrt.Spec {
 			pc.Extra = append(pc.Extra, "--plugin-time-limit", pre.Limit)
 		}
 		cc.Prelude = append(cc.Prelude, pc.spec(0).Args)
+	}
+	if c.SdkPlug {
+		cc.SdkPlugin = map[string]interface{}{"name": "hostplug", "params": []string{"sdk_mode=strict", "sdk_level=2"}}
 	}
 	sp := cc.spec(c.Seed)
 	if c.NoOut {
@@ -384,6 +390,27 @@ func c11Judge(c *c11Case, wr *worldRun) *c11Verdict {
 			return d[i:]
 		}
 		return d
+	}
+
+	// ---- clause 1 for the host's in-process plugin: it is handed its own parameters, and they stay its own ----
+	for _, t := range res.Taps["sdk.invoke"] {
+		var si struct {
+			Call       int      `json:"call"`
+			Language   string   `json:"language"`
+			Seen       []string `json:"seen"`
+			OwnNow     []string `json:"own_now"`
+			Configured []string `json:"configured"`
+		}
+		if json.Unmarshal(t, &si) != nil {
+			continue
+		}
+		v.Trivia["sdk-plugin-calls-judged"]++
+		if strings.Join(si.Seen, "\x00") != strings.Join(si.Configured, "\x00") {
+			return bad("plugin-parameters", "plugin-parameters:sdk-plugin", "the host's in-process plugin is configured with %q but the request of its call %d (language %s) carried %q", si.Configured, si.Call, si.Language, si.Seen)
+		}
+		if strings.Join(si.OwnNow, "\x00") != strings.Join(si.Configured, "\x00") {
+			return bad("plugin-parameters", "plugin-parameters:sdk-plugin-own-list-changed", "the parameter list the host's in-process plugin owns was %q and is %q at its call %d", si.Configured, si.OwnNow, si.Call)
+		}
 	}
 
 	// ---- clause 1: request fidelity ----
@@ -945,6 +972,11 @@ func c11Check(a *artefacts, tier string, seed uint64, replay string) int {
 				pre.Limit = c.Limit
 			}
 			c.Prelude = append(c.Prelude, pre)
+		}
+		// a host program with an in-process plugin of its own (an eighth of the cases)
+		if r.Chance(1, 8) {
+			c.SdkPlug = true
+			c.Debug = false
 		}
 		// with two languages, some faulty plugins misbehave for one language only
 		if c.Second != nil {
